@@ -85,15 +85,16 @@ def _case(draw, ctx):
     else:
         spec = draw(S.circuit_spec(min_inputs=1, max_inputs=5, min_gates=1, max_gates=9, max_fanin=3, single_output=True))
     nout = sum(1 for x in spec["nodes"] if x[3])
-    return {"spec": spec, "superc": nout == 1 and draw(st.booleans())}
+    return {"spec": spec, "superc": nout == 1 and draw(st.booleans()),
+            "prelimit": draw(st.sampled_from([0, 0, 0, 3, 4]))}
 
 
 def strategy(ctx):
     return _case(ctx)
 
 
-def _helper(name):
-    return "_limit_fanin_" in name
+def _helper(name, orig=None):
+    return "_limit_fanin_" in name and (orig is None or name not in orig)
 
 
 def check(case, ctx):
@@ -101,6 +102,12 @@ def check(case, ctx):
     c = specs.build(spec)
     if refsim.ref_lint(c):
         raise specs.SpecError("generator produced non-lint-clean circuit")
+    if case.get("prelimit"):
+        # the argument is itself the output of an earlier limit_fanin(c, k>2): a legal circuit that
+        # already contains *_limit_fanin_* names
+        c = need(lib(cg.tx.limit_fanin, c, case["prelimit"]), "prelimit", "limit_fanin before supergates")
+        if refsim.ref_lint(c):
+            raise Violation("prelimit|lint", "limit_fanin produced a non-lint-clean circuit")
     g = c.graph
     snap = refsim.snapshot(c)
     outs = sorted(c.outputs())
@@ -195,7 +202,7 @@ def check(case, ctx):
     if refsim.has_cycle(c2):
         raise Violation("supergates|cyclic", "union of the supergates is cyclic")
     for n, (t, fi) in internal.items():
-        if _helper(n):
+        if _helper(n, g.nodes):
             continue
         if n not in g.nodes:
             raise Violation("supergates|foreign_node", f"supergates contain unknown node {n!r}")
@@ -207,7 +214,7 @@ def check(case, ctx):
             raise Violation("supergates|fanin_limit", f"node {n!r} has fan-in {len(fi)} inside a supergate")
     v2 = refsim.simulate(c2, asg, W)
     for n in internal:
-        if not _helper(n) and v2[n] != ref[n]:
+        if not _helper(n, g.nodes) and v2[n] != ref[n]:
             raise Violation("supergates|function", f"node {n!r} computes a different function in the supergate circuit")
     # inside a supergate every non-input node has all of its fan-in
     for idx, sg in enumerate(sgs):
@@ -244,6 +251,6 @@ def check(case, ctx):
     labels.append(f"n_sg_{min(len(sgs), 5)}")
     if reconv:
         labels.append("reconvergent_supergate")
-    if any(_helper(n) for n in internal):
+    if any(_helper(n, g.nodes) for n in internal):
         labels.append("fanin_limited")
     return {"nontrivial": len(sgs) >= 2 or reconv, "labels": labels}
